@@ -63,7 +63,7 @@ def gen(rng, tier):
                 elif shape == "c:a-":
                     q["lo"] = a
             queries.append(q)
-        yield {"recs": recs, "queries": queries, "sort": rng.random() < 0.7, "gz_input": rng.random() < 0.25, "explicit_output": rng.random() < 0.4, "line_order": rng.choice(["grouped", "interleaved"]), "nosort_layout": rng.choice(["hr_then_v", "k2"])}
+        yield {"recs": recs, "queries": queries, "sort": rng.random() < 0.7, "gz_input": rng.random() < 0.25, "explicit_output": rng.random() < 0.4, "line_order": rng.choice(["grouped", "interleaved", "v_first", "shuffled"]), "nosort_layout": rng.choice(["hr_then_v", "k2"])}
 
 
 def gen_large(rng, tier):
@@ -130,6 +130,15 @@ def write_hap(case, path, sorted_for_tabix):
         for r in recs:
             for v in r["vars"]:
                 lines.append("\t".join(["V", r["id"], str(v[0]), str(v[1]), v[2], v[3]]))
+    elif case["line_order"] in ("v_first", "shuffled"):
+        # lines may come in any order: every V line ahead of the H lines, or all lines shuffled
+        hl = ["\t".join([r["t"], r["chrom"], str(r["start"]), str(r["end"]), r["id"]]) for r in recs]
+        vl = ["\t".join(["V", r["id"], str(v[0]), str(v[1]), v[2], v[3]]) for r in recs for v in r["vars"]]
+        lines = vl + hl
+        if case["line_order"] == "shuffled":
+            import random as _r
+
+            _r.Random(C.plumb(case, "shuffle", 2**31)).shuffle(lines)
     else:
         for r in recs:  # each H directly followed by its V lines (V before other H lines)
             lines.append("\t".join([r["t"], r["chrom"], str(r["start"]), str(r["end"]), r["id"]]))
